@@ -48,6 +48,22 @@ def _shape(shape):
     return (_conc_int(shape, "array shape"),)
 
 
+def _generic_alloc(shape, fill):
+    """np.zeros((N,k)) / np.zeros((N,)) with N the symbolic row count of a table -> per-row constant array"""
+    from .frames import space_for_count
+    if isinstance(shape, SV):
+        sp = space_for_count(shape)
+        return GVec(fill, sp)
+    if isinstance(shape, (tuple, list)) and shape and isinstance(shape[0], SV):
+        sp = space_for_count(shape[0])
+        if len(shape) == 1:
+            return GVec(fill, sp)
+        if len(shape) == 2 and not isinstance(shape[1], SV):
+            return RowArr([fill] * int(shape[1]), sp)
+        raise Unsupported("allocation with symbolic shape")
+    return None
+
+
 def obj(a):
     """object array from nested lists / arrays"""
     if isinstance(a, _np.ndarray) and a.dtype == object:
@@ -133,14 +149,23 @@ class NP:
 
     # ---- allocation
     def zeros(self, shape, dtype=float, **k):
+        g = _generic_alloc(shape, 0.0 if dtype in (float, None, _np.float64, _np.float32) else 0)
+        if g is not None:
+            return g
         a = _np.empty(_shape(shape), dtype=object)
         a.fill(0.0 if dtype in (float, None, _np.float64, _np.float32) else (False if dtype is bool else 0))
         return a
     def ones(self, shape, dtype=float, **k):
+        g = _generic_alloc(shape, 1.0 if dtype in (float, None, _np.float64, _np.float32) else 1)
+        if g is not None:
+            return g
         a = _np.empty(_shape(shape), dtype=object)
         a.fill(1.0 if dtype in (float, None, _np.float64, _np.float32) else (True if dtype is bool else 1))
         return a
     def full(self, shape, v, **k):
+        g = _generic_alloc(shape, v)
+        if g is not None:
+            return g
         a = _np.empty(_shape(shape), dtype=object)
         a.fill(v)
         return a
@@ -176,6 +201,11 @@ class NP:
         return _np.atleast_1d(x)
     def arange(self, *a, **k):
         if _has_sym(a):
+            from .frames import space_for_count, RowPos
+            start, stop, step = (0, a[0], 1) if len(a) == 1 else (a[0], a[1], a[2] if len(a) > 2 else 1)
+            if step == 1 and not isinstance(start, SV):
+                sp = space_for_count(stop - start)
+                return GVec(RowPos(sp).val + start, sp)
             raise Unsupported("np.arange with symbolic bounds")
         return _np.arange(*a, **k)
     def tile(self, x, reps):
